@@ -194,6 +194,20 @@ def run {μ : Type} (cfg : Cfg μ) : St → List Ev → St × List (Out μ)
     let r' := run cfg r.1 es
     (r'.1, r.2 ++ r'.2)
 
+/-! ## One client / transport object, several connections one after the other -/
+
+/-- `__aenter__` of an object that has been used before.  The new connection owes nothing to the previous one: no bytes
+of an unfinished character, no unfinished line, no negotiated version, and a reader that runs - whatever state the
+previous connection ended in. -/
+def enter (_prev : St) : St := init
+
+/-- consecutive connections on one object: the outputs of each -/
+def runSessions {μ : Type} (cfg : Cfg μ) : St → List (List Ev) → List (List (Out μ))
+  | _, [] => []
+  | prev, evs :: rest =>
+    let r := run cfg (enter prev) evs
+    r.2 :: runSessions cfg r.1 rest
+
 /-- reads only -/
 def runChunks {μ : Type} (cfg : Cfg μ) (st : St) (chunks : List (List Nat)) : St × List (Out μ) :=
   run cfg st (chunks.map Ev.chunk)
